@@ -266,6 +266,14 @@ class Exec:
         s.add(*[f for f in st.pc if not has_quant(f)])
         if extra is not None:
             s.add(extra)
+        # a quantified hypothesis next to its own negation (up to the names of bound variables), e.g. a precondition and the
+        # branch condition that tests the same thing: dead without asking the solver about quantifiers
+        qs = [f for f in st.pc if is_z3(f) and has_quant(f)]
+        if qs:
+            from .lib_np import alpha_key
+            keys = {alpha_key(z3.simplify(f)) for f in qs}
+            if any(alpha_key(z3.simplify(z3.Not(f))) in keys for f in qs):
+                return False
         t = time.time()
         r = s.check()
         self.ctx.prune_solver_time += time.time() - t
@@ -403,6 +411,23 @@ class Exec:
             return lambda k, L=L, Es=Es, t=t, LL=LL: Tab(
                 L(to_z3(k)), {c: cell(E, Nn, k) for c, (E, Nn) in Es.items()},
                 Idx(hint, labels=(lambda j, k=k: LL(to_z3(k), to_z3(j)))), dict(t.cols))
+        if isinstance(t, dsl.SeqT) and isinstance(t.elt, dsl.RecT) and all(
+                isinstance(ft, (dsl._Int, dsl._Real, dsl._Bool, dsl._Str, dsl.Atom, dsl._NReal)) for ft in t.elt.fields.values()):
+            # a sequence of records inside each element: per-element length and 2-argument field functions
+            L = z3.Function(fresh_name(hint + "_len"), I, I)
+            a = fresh(I, "a")
+            st.assume(z3.ForAll([a], L(a) >= 0))
+            Fs = {}
+            for c, ct in t.elt.fields.items():
+                if isinstance(ct, dsl._NReal):
+                    Fs[c] = (z3.Function(fresh_name(hint + "_" + c), I, I, R), z3.Function(fresh_name(hint + "_" + c + "_null"), I, I, B))
+                else:
+                    Fs[c] = (z3.Function(fresh_name(hint + "_" + c), I, I, sort_of(ctx, ct)), None)
+
+            def rec_at(k, j, Fs=Fs, nm=t.elt.name):
+                k, j = to_z3(k), to_z3(j)
+                return Rec({c: (E(k, j) if Nn is None else NF(Nn(k, j), E(k, j))) for c, (E, Nn) in Fs.items()}, nm)
+            return lambda k, L=L: Seq(L(to_z3(k)), lambda j, k=k: rec_at(k, j))
         if isinstance(t, dsl.DictT):
             if t.items:
                 raise Unsupported("sequence of non-empty dicts")
@@ -420,7 +445,7 @@ class Exec:
                 fv = {}
                 for f, g in fs.items():
                     x = g(k)
-                    if isinstance(x, (Tab, Vec, DictV, ListV, Obj)):
+                    if isinstance(x, (Tab, Vec, DictV, ListV, Obj, Seq)):
                         a2 = fresh_name("a")
                         LAZY_HEAP[a2] = x
                         x = Ref(a2)
